@@ -31,7 +31,7 @@ ClassOK(a, v, c) ==
   \/ c = "sent" /\ v # Absent /\ v \in AllowedDelivered(a, v)
   \/ c = "sent" /\ v # Absent /\ Emptyish(a, v)
   \/ c = "absent" /\ Absent \in AllowedDelivered(a, v)
-  \/ c = "absent" /\ v = Absent /\ IsContainer(a)
+  \/ c = "absent" /\ v = Absent /\ IsContainer(a) /\ a.mode # "default"
   \/ c = "default" /\ a.mode = "default" /\ DefaultOf(a) \in AllowedDelivered(a, v)
 
 TReset == /\ Ev("reset") /\ pc = "done"
